@@ -15,6 +15,7 @@ import (
 	"github.com/named-data/ndnd/std/engine/basic"
 	"github.com/named-data/ndnd/std/engine/dummy"
 	"github.com/named-data/ndnd/std/ndn"
+	mgmt "github.com/named-data/ndnd/std/ndn/mgmt_2022"
 	spec "github.com/named-data/ndnd/std/ndn/spec_2022"
 	sec "github.com/named-data/ndnd/std/security"
 
@@ -330,6 +331,60 @@ func c20History(c *h.Ctx, id string, r *rand.Rand) {
 			_ = cr.eng.DetachHandler(nm.Clone())
 			delete(cr.handlers, nkey(nm))
 			c.Distinct("detach")
+		case k < 91 && len(cr.handlers) > 0 && r.Intn(2) == 0: // ROUTE WITHDRAWAL: the application withdraws a prefix announcement (its handlers stay attached)
+			emptyPending := false
+			for _, p := range cr.pend {
+				if !p.resolved && len(p.name) == 0 {
+					emptyPending = true
+				}
+			}
+			if emptyPending {
+				break
+			}
+			pfx := cr.handlers[sortedKeys(cr.handlers)[r.Intn(len(cr.handlers))]].Clone()
+			if len(pfx) > 0 && r.Intn(2) == 0 {
+				pfx = pfx[:len(pfx)-1] // a shorter prefix: handlers sit strictly below it
+			}
+			ev := &c20Event{Ev: "unregister-route", Name: pfx.String()}
+			cr.hist = append(cr.hist, ev)
+			cr.face.TakeSent()
+			done := make(chan error, 1)
+			go func() { done <- cr.eng.UnregisterRoute(pfx.Clone()) }()
+			var cmd []byte
+			for dl := time.Now().Add(5 * time.Second); cmd == nil && time.Now().Before(dl); time.Sleep(100 * time.Microsecond) {
+				if sent := cr.face.TakeSent(); len(sent) > 0 {
+					cmd = sent[0]
+				}
+			}
+			if cmd == nil {
+				cr.c.Inconclusive("the rib/unregister command Interest never appeared on the face")
+				cr.stop = true
+				break
+			}
+			in, _, perr := spec.Spec{}.ReadInterest(enc.NewBufferReader(cmd))
+			if perr != nil {
+				cr.fail("C20:command-interest-malformed", "the engine's rib/unregister command Interest does not decode: "+perr.Error(), nil)
+				return
+			}
+			resp := &mgmt.ControlResponse{Val: &mgmt.ControlResponseVal{StatusCode: 200, StatusText: "OK", Params: &mgmt.ControlArgs{Name: pfx.Clone()}}}
+			rd, derr := spec.Spec{}.MakeData(in.Name(), &ndn.DataConfig{}, resp.Encode(), sec.NewSha256Signer())
+			if derr != nil {
+				cr.c.Inconclusive("cannot build the management response")
+				cr.stop = true
+				break
+			}
+			if pi := h.Guard(func() { _ = cr.face.Feed(rd.Wire.Join()) }); pi != nil {
+				cr.fail("C20:panic:mgmt-response:"+pi.Frame+":"+pi.Class, "engine panicked on a management response: "+pi.Value, nil)
+				return
+			}
+			select {
+			case <-done:
+			case <-time.After(10 * time.Second):
+				cr.fail("C20:unregister-route-never-returns", "UnregisterRoute did not return within 10 s of its command being answered with status 200", nil)
+				return
+			}
+			c.Count("route_withdrawals", 1)
+			c.Distinct("unregister-route")
 		case k < 91 && len(cr.pend) > 0: // FACE ERROR: the transport reports an error while Interests are pending
 			ev := &c20Event{Ev: "face-error"}
 			cr.hist = append(cr.hist, ev)
